@@ -63,6 +63,17 @@ func OnceDo(o *sync.Once, f func(), site string) {
 }
 
 //go:norace
+func (s *sim) onceSlot(key uintptr) *onceState {
+	for i := range s.onceTab {
+		if s.onceTab[i].key == key {
+			return &s.onceTab[i]
+		}
+	}
+	s.onceTab = append(s.onceTab, onceState{key: key})
+	return &s.onceTab[len(s.onceTab)-1]
+}
+
+//go:norace
 func onceEnter(o *sync.Once, site string) bool {
 	s := cur
 	if s == nil || s.tasks == nil || s.turn < 0 {
@@ -71,11 +82,7 @@ func onceEnter(o *sync.Once, site string) bool {
 	key := uintptr(unsafe.Pointer(o))
 	Yield(site)
 	for {
-		st := s.onceTab[key]
-		if st == nil {
-			st = &onceState{}
-			s.onceTab[key] = st
-		}
+		st := s.onceSlot(key)
 		if !st.running {
 			st.running = true
 			return true
@@ -90,9 +97,6 @@ func onceLeave(o *sync.Once) {
 	if s == nil {
 		return
 	}
-	key := uintptr(unsafe.Pointer(o))
-	if st := s.onceTab[key]; st != nil {
-		st.running = false
-	}
+	s.onceSlot(uintptr(unsafe.Pointer(o))).running = false
 	s.unlockGen++
 }
